@@ -61,7 +61,10 @@ def br_identity(b, result):
 # ---- date / time / uuid / datetime hooks: each is the stated stdlib composition; round trips follow from the assumed inverse laws --------------
 from datetime import date, time  # noqa: E402
 from uuid import UUID  # noqa: E402
-from pyopenapi_gen.core.cattrs_converter import structure_time, structure_uuid, unstructure_time, unstructure_uuid  # noqa: E402
+try:  # these hooks were added by a repair; a tree without them must not crash the checker (their contracts then simply do not apply)
+    from pyopenapi_gen.core.cattrs_converter import structure_time, structure_uuid, unstructure_time, unstructure_uuid  # noqa: E402
+except ImportError:  # pragma: no cover
+    structure_time = structure_uuid = unstructure_time = unstructure_uuid = None
 
 c = contract(f"{CV}:structure_date", props=["C03", "C16"], functional_opaque=["date.fromisoformat", "fromisoformat"])
 
